@@ -3,7 +3,8 @@
 reflexive Class-Class via Assoc with phrases 'one'/'other'; R2 Other_Class -> Class; functions,
 operations, bridges LOG/ARCH/TIM, enumeration My_Enum, constant PI).  One statement per line,
 canonical layout.  flags: p = reads param.P1/P2, s = uses self,
-b = reads the bridge parameter param.message (bridge home only)."""
+b = reads the bridge parameter param.message (bridge home only),
+t = reads the structured parameter param.seg (home struct_fn only; My_Struct gets a member named length)."""
 
 P = []
 
@@ -312,3 +313,25 @@ ns = cs & ds;
 ms = cs - ds;
 n = cardinality us + cardinality (cs | ds);
 ''')
+prog('empty_statements', '''
+x = 1;; y = 2;
+if x == 1
+  ;
+  x = 2;;
+  y = 3;
+end if;;
+while x < 3
+  x = x + 1;;;
+end while;
+return;
+''')
+prog('struct_members', '''
+x = param.seg.M1 + param.seg.M2;
+r = param.seg.length;
+s = param.seg;
+y = s.M3;
+q = s.length + 1.5;
+arr[0] = 1;
+n = arr.length;
+return x;
+''', 't')
